@@ -14,7 +14,7 @@ RULE = (
     "laws. A case is non-trivial when its list is non-empty (or it is an algebra case); distinct = distinct case digest."
 )
 BUDGET = {"quick": 24000, "thorough": 1200000}
-TIME_CAP = {"quick": 60, "thorough": 1500}
+TIME_CAP = {"quick": 240, "thorough": 1500}
 ANCHORS = [
     "Matrix.parse", "Matrix.render", "Matrix.pre_cat", "Matrix.post_cat", "Matrix.pre_scale", "Matrix.pre_rotate",
     "Matrix.pre_skew", "Matrix.pre_translate", "Matrix.post_scale", "Matrix.post_rotate", "Matrix.post_skew",
